@@ -18,11 +18,13 @@
   Laws (`PathLaws`; toy instance `ZC.pathLaws`): on the positions a path string can produce (`C14.CtrlPos` of a head position
   with truncated coordinates) `==` is equality, reflexive, and a triple with a repeated point is collinear for `is_linear`
   (none holds of every `Scalar`: NaN, −0); a piece that starts with an ASCII letter does not read as a number within
-  ±131072 (Rust reads `inf`, `nan`, `infinity` as floats — they fail the limit test). Not established for IEEE here.
+  ±131072 (Rust reads `inf`, `nan`, `infinity` as floats — they fail the limit test). For the IEEE instances all of them
+  are theorems: Props/C04DecodedPathsIeee.lean (`pathLaws_ieee`).
 
   Theorems: `decoded_path_shape` (one line, any mode / state with empty buffer / line), `pathState_decoded` (framing
-  driver), `decoded_map_path_shape`, `decoded_path_shape_iff` (finished map), `f17_catmull_needed` / `f17_typed_needed`
-  (kernel-evaluated lines whose stored control points violate `PathShapeOk`), `f17_file_needed` (a decoded file),
+  driver), `decoded_map_path_shape`, `decoded_path_shape_iff` (finished map),
+  `f17_needed` (kernel-evaluated lines whose stored control points violate `PathShapeOk`), `f17_file_needed` (a decoded
+  file), `f17_map_needed` (its finished map, if the finaliser succeeds), `f17Free_of_noRepeat` (a readable sufficient condition),
   `decoded_sliders_representable`, `decoded_objects_representable_f17`, `hitobjects_block_accepted_decoded_f17`,
   `encoded_file_accepted_decoded_f17_partial`.
 -/
